@@ -26,7 +26,7 @@ pub const PER_PACKET_LIMIT: usize = 1024 * 1024 + 64 * SEG;
 pub const RETAINED_HARD: isize = 8 * 1024 * 1024;
 pub const PER_PACKET_HARD: usize = 16 * 1024 * 1024;
 
-pub const KINDS: [&str; 18] = [
+pub const KINDS: [&str; 20] = [
     "http-head-never-ends",
     "tls-application-data",
     "random-bytes",
@@ -51,7 +51,15 @@ pub const KINDS: [&str; 18] = [
     // rejecting it must not cost more than reading it
     "http-request-head-of-4000-distinct-lines-completes",
     "http-response-head-of-4000-distinct-lines-completes",
+    // the OTHER direction of the connection has already yielded its fingerprint (a complete request, or for chains sent by
+    // the client a complete response, is analysed first): limits of one direction must not hang on the state of the other
+    "random-bytes-after-the-peer-was-fingerprinted",
+    "tls-application-data-after-the-peer-was-fingerprinted",
 ];
+/// the kind whose byte stream a chain carries (prefaced kinds share the stream of their base kind)
+fn base_kind(kind: &str) -> &str {
+    kind.strip_suffix("-after-the-peer-was-fingerprinted").unwrap_or(kind)
+}
 
 /// kinds whose byte stream is a prefix followed by one unit repeated for ever
 fn periodic(kind: &str) -> Option<(Vec<u8>, Vec<u8>)> {
@@ -192,7 +200,7 @@ fn stream_slice(kind: &str, from: usize, len: usize) -> Vec<u8> {
 
 pub fn chain_frame(kind: &str, from_client: bool, i: usize, size: usize) -> Vec<u8> {
     let (src, sport, dst, dport) = if from_client { (1u8, 40000u16, 2u8, 443u16) } else { (2, 443, 1, 40000) };
-    pkt::build(&Spec { src, sport, dst, dport, flags: ACK | PSH, seq: 1001u32.wrapping_add(if kind.ends_with("behind-a-sequence-hole") { 100 } else { 0 }).wrapping_add((i * size) as u32), ack: 1, payload: stream_slice(kind, i * size, size), ..Spec::default() })
+    pkt::build(&Spec { src, sport, dst, dport, flags: ACK | PSH, seq: 1001u32.wrapping_add(if kind.ends_with("behind-a-sequence-hole") { 100 } else { 0 }).wrapping_add((i * size) as u32), ack: 1, payload: stream_slice(base_kind(kind), i * size, size), ..Spec::default() })
 }
 
 /// one chain on one analyzer; returns per-packet (retained, allocated) or the first violation
@@ -230,6 +238,11 @@ pub fn run_chain(r: &mut Report, analyzer: &str, kind: &str, from_client: bool, 
         };
         feed(&syn);
         feed(&synack);
+        if kind.ends_with("-after-the-peer-was-fingerprinted") {
+            // the peer's message, complete in one segment
+            let (src, sport, dst, dport, msg): (u8, u16, u8, u16, &[u8]) = if from_client { (2, 443, 1, 40000, b"HTTP/1.1 200 OK\r\nServer: nginx/1.2.3\r\nContent-Length: 0\r\n\r\n") } else { (1, 40000, 2, 443, b"GET / HTTP/1.1\r\nHost: h.example\r\nUser-Agent: curl/8.0\r\nAccept: */*\r\n\r\n") };
+            feed(&pkt::build(&Spec { src, sport, dst, dport, flags: ACK | PSH, seq: 1001, ack: 1, payload: msg.to_vec(), ..Spec::default() }));
+        }
         let base_live = counters().0;
         let mut worst: (isize, usize, usize) = (0, 0, 0);
         // (max retained, max allocated per packet) over the first and the second half of the chain
@@ -432,7 +445,7 @@ pub fn run(thorough: bool) -> Outcome {
     run_capacity_routes(&mut total);
     Outcome {
         report: total,
-        rule: "deterministic chains: SYN, SYN+ACK, then N segments (1400, 64, 1 or 16000 bytes each, same byte stream; jumbo chains stop at 4096 segments) of 18 never-fingerprinting traffic kinds (incl. heads of 4000 distinct header lines that do complete) (incl. many complete small records / frames / lines per segment) x both directions x 4 analyzers; after EVERY packet the bytes retained since the connection started and the bytes allocated while handling the packet are recorded (counting allocator, per thread): hard limits 8 MiB / 16 MiB at every step; above the soft limits (256 KiB retained, 1 MiB + 64 x segment size per packet) the second half of the chain must not exceed the first (retained + 64 KiB, per packet x 1.25 + 64 KiB); capacity families: capacity + k connections (k >= capacity) for capacities 1, 8, 64, 1000 (and 30 000 / 200 000 connections on capacity 8; every connection with timestamped segments of both sides) must not retain more than 1.25 x what `capacity` connections retain + 256 KiB; capacity routes: 4 x capacity connections opened before any sends its request, through analyze_pcap of HuginnNetHttp::new, with_config without init_pool (1, 2, 4, 16 workers) and the unified analyzer for capacities 1, 2, 8: at most `capacity` requests can be reported, and all HTTP routes agree; distinct = distinct (chain, peak) outcomes".into(),
+        rule: "deterministic chains: SYN, SYN+ACK, then N segments (1400, 64, 1 or 16000 bytes each, same byte stream; jumbo chains stop at 4096 segments) of 20 never-fingerprinting traffic kinds (incl. heads of 4000 distinct header lines that do complete, and opaque data in one direction after the other direction was fingerprinted) (incl. many complete small records / frames / lines per segment) x both directions x 4 analyzers; after EVERY packet the bytes retained since the connection started and the bytes allocated while handling the packet are recorded (counting allocator, per thread): hard limits 8 MiB / 16 MiB at every step; above the soft limits (256 KiB retained, 1 MiB + 64 x segment size per packet) the second half of the chain must not exceed the first (retained + 64 KiB, per packet x 1.25 + 64 KiB); capacity families: capacity + k connections (k >= capacity) for capacities 1, 8, 64, 1000 (and 30 000 / 200 000 connections on capacity 8; every connection with timestamped segments of both sides) must not retain more than 1.25 x what `capacity` connections retain + 256 KiB; capacity routes: 4 x capacity connections opened before any sends its request, through analyze_pcap of HuginnNetHttp::new, with_config without init_pool (1, 2, 4, 16 workers) and the unified analyzer for capacities 1, 2, 8: at most `capacity` requests can be reported, and all HTTP routes agree; distinct = distinct (chain, peak) outcomes".into(),
         exhaustive: true,
         bounds: json!({"segments_per_chain": n, "segment_bytes": SIZES, "chains": jobs.len(), "retained_limit": RETAINED_LIMIT, "per_packet_limit": PER_PACKET_LIMIT}),
     }
